@@ -32,9 +32,42 @@ def call_name(node):
         return "?"
 
 
+class _Subst(ast.NodeTransformer):
+    def __init__(self, mapping):
+        self.mapping = mapping
+
+    def visit_Name(self, node):
+        return self.mapping.get(node.id, node)
+
+
 class Seq(ast.NodeVisitor):
-    def __init__(self):
+    def __init__(self, mod=None, cls=None):
         self.ev = []
+        self.mod, self.cls = mod, cls
+
+    def guard_helper(self, st):
+        """`self._check(args)` as a statement, where `_check` is a private method of the same class whose whole
+        body is `if <test>: raise <Exc>(...)` guards: the extracted spelling of writing the guards in place.
+        Returns the guards with the parameters replaced by the arguments, or None"""
+        import copy
+
+        if self.mod is None or not (isinstance(st, ast.Expr) and isinstance(st.value, ast.Call)):
+            return None
+        f = st.value.func
+        if not (isinstance(f, ast.Attribute) and isinstance(f.value, ast.Name) and f.value.id in ("self", "cls") and f.attr.startswith("_")):
+            return None
+        r = find_method(self.mod, self.cls, f.attr)
+        if not r or st.value.keywords:
+            return None
+        fn = r[2]
+        params = [a.arg for a in fn.args.args if a.arg not in ("self", "cls")]
+        if len(params) != len(st.value.args):
+            return None
+        body = [b for b in fn.body if not (isinstance(b, ast.Expr) and isinstance(b.value, ast.Constant))]
+        if not body or not all(isinstance(b, ast.If) and not b.orelse and any(isinstance(x, ast.Raise) for x in b.body) for b in body):
+            return None
+        sub = _Subst(dict(zip(params, st.value.args)))
+        return [ast.fix_missing_locations(sub.visit(copy.deepcopy(b))) for b in body]
 
     def expr_calls(self, node):
         """calls inside an expression in evaluation order (arguments before the call itself)"""
@@ -61,6 +94,10 @@ class Seq(ast.NodeVisitor):
     def block(self, stmts):
         for st in stmts:
             if isinstance(st, ast.Expr) and isinstance(st.value, ast.Constant):
+                continue
+            inlined = self.guard_helper(st)
+            if inlined is not None:
+                self.block(inlined)
                 continue
             if isinstance(st, ast.If):
                 raises = [s for s in st.body if isinstance(s, ast.Raise)]
@@ -130,7 +167,7 @@ def generate(gen_dir, build_dir, write_if_changed):
                 if i < 0:
                     raise TranslatorGap(f"{fname}: {flag} has no default")
                 default = ast.literal_eval(defaults[i])
-            s = Seq()
+            s = Seq(mod, cls)
             s.block(fn.body)
             apis[label] = {"flag": flag, "default": default, "events": s.ev}
         except TranslatorGap as e:
